@@ -27,6 +27,7 @@ EOM
 cp "$VERIF/overlay/root/"*.go . || fail overlay
 cp "$VERIF/overlay/expiration/"*.go internal/expiration/ || fail overlay
 cp "$VERIF/overlay/hashmap/"*.go internal/hashmap/ || fail overlay
+cp "$VERIF/overlay/lossy/"*.go internal/lossy/ || fail overlay
 mkdir -p internal/zzverif && cp -r "$VERIF/harness/"* internal/zzverif/ || fail harness
 go build -tags verif -o "$SCR/simworker" ./internal/zzverif/cmd/simworker > "$SCR/build.log" 2>&1 || { cat "$SCR/build.log" >&2; fail "go build failed"; }
 cat "$SCR/rewrite.log"
